@@ -22,6 +22,16 @@ for sid in ids:
     json.dump(meta,open(os.path.join(d,'meta.json'),'w'),indent=1)
     rows.append((sid,prop,'yes' if 'CONFIRMED=yes' in conf else 'NO','caught' if caught else 'MISSED',next((l.strip()[:200] for l in out.split('\n') if 'violations=' in l and 'violations=0' not in l),'') if caught else ''))
     print(sid,prop,rows[-1][2],rows[-1][3])
+# rows of seeds that were not re-run come from their stored meta.json
+done={r[0] for r in rows}
+for sid in sorted(d for d in os.listdir(ROOT) if os.path.isdir(os.path.join(ROOT,d)) and not d.startswith('_')):
+    if sid in done: continue
+    mp=os.path.join(ROOT,sid,'meta.json')
+    if not os.path.exists(mp): continue
+    m=json.load(open(mp)); out=m['check_run']['output']; caught=m['check_run']['caught']
+    rows.append((sid,m['breaks_property'],'yes' if 'CONFIRMED=yes' in m['confirmation']['result'] else 'NO','caught' if caught else 'MISSED',
+                 next((l.strip()[:200] for l in out.split('\n') if 'violations=' in l and 'violations=0' not in l),'') if caught else ''))
+rows.sort()
 with open(os.path.join(ROOT,'README.md'),'w') as f:
     f.write('# Seeded property-breaking changes (from sub-agents that saw only the property text)\n\n| seed | property | confirmed | quick check | first failing claimed clause |\n|---|---|---|---|---|\n')
     for r in rows: f.write('| %s | %s | %s | %s | %s |\n'%r)
